@@ -53,6 +53,8 @@ func init() {
 					}
 					var seen []string
 					var fired []string
+					// operations (type and key) whose last execution was hit by a fault: a fault-free repeat clears the entry
+					pendingFail := map[string]bool{}
 					n := 0
 					arm := func() {
 						n = 0
@@ -60,11 +62,16 @@ func init() {
 							n++
 							seen = append(seen, cmd.Op)
 							for _, f := range faults {
-								if f.k == n {
+								if f.k == n || (f.kind == "outage" && n >= f.k) {
 									fired = append(fired, cmd.Op+":"+f.kind)
+									pendingFail[cmd.Op+" "+cmd.Key] = true
+									if f.kind == "outage" {
+										return &vpStoreFault{Kind: "err_before"}
+									}
 									return &vpStoreFault{Kind: f.kind}
 								}
 							}
+							delete(pendingFail, cmd.Op+" "+cmd.Key)
 							return nil
 						}
 					}
@@ -131,10 +138,15 @@ func init() {
 					obs["panic"] = r.Panic != ""
 					obs["opsSeen"] = seen
 					obs["fired"] = fired
-					if scn == "login" || scn == "form" {
-						// a cookie that was handed out: does it work?
-						again := w.get(jar, "/private")
+					obs["recovered"] = len(fired) > 0 && len(pendingFail) == 0
+					// a cookie that was handed out: does it load a session now that the store is healthy?
+					obs["brokenCookie"] = false
+					if obs["session"] == "set" {
+						j2 := vpNewJar()
+						j2.applyAll(r)
+						again := w.get(j2, "/private")
 						obs["cookieWorks"] = again.UpHits > 0
+						obs["brokenCookie"] = again.UpHits == 0
 					}
 					env.emit(vpOut{ID: c.ID, Obs: obs, Conc: map[string]interface{}{"panic": r.Panic}})
 				}
